@@ -1,5 +1,5 @@
-\* emission, thorough (workers 1): size 3, sparse maps with up to 3 cells, complete maps with up to 2 holes
-CONSTANTS N = 3  MaxHoles = 2  MaxCells = 3  MaxLevel = 5
+\* emission, thorough (workers 1): size 3, sparse maps with up to 2 cells, complete maps with up to 2 holes
+CONSTANTS N = 3  MaxHoles = 2  MaxCells = 2  MaxLevel = 5
 CONSTANT Classes = {"cart", "third", "fullflat", "fulltips"}
 INVARIANT EmitState
 INIT Init
